@@ -187,6 +187,12 @@ def build_panel(case):
     p.beta, p.gamma, p.aeromu, p.flow = case['beta'], case['gamma'], case['aeromu'], case['flow']
     for f in case['forces']:
         p.add_force(f['x'] * p.a, f['y'] * p.b, f['fx'], f['fy'], f['fz'], cte=f['cte'])
+    if case.get('forces_form') == 'ndarray':
+        # the load tables handed over as float64 arrays of shape (N, 5) instead of lists of lists (the loops accept both)
+        if p.forces:
+            p.forces = np.array(p.forces, dtype=float)
+        if p.forces_inc:
+            p.forces_inc = np.array(p.forces_inc, dtype=float)
     p.num_eigvalues = 3
     return p
 
@@ -225,7 +231,12 @@ def exec_panel(p, op):
         p.calc_cA(op['aeromu'], silent=True)
         return p.cA
     if o == 'calc_fext':
-        return p.calc_fext(inc=op['inc'], silent=True)
+        before = [np.array(t, dtype=float).copy() for t in (p.forces, p.forces_inc)]
+        out = p.calc_fext(inc=op['inc'], silent=True)
+        for b_, t in zip(before, (p.forces, p.forces_inc)):
+            if not np.array_equal(b_, np.array(t, dtype=float)):
+                raise Violation('history[Panel].input-mutated[calc_fext]', 'the load table supplied by the caller was modified by calc_fext')
+        return out
     if o == 'calc_fint':
         c = _vec(op, n, h)
         return p.calc_fint(c, silent=True, nx=op['nx'], ny=op['nx'])
@@ -323,6 +334,7 @@ def _panel_strategy(draw, tier='quick'):
     case['flow'] = draw(st.sampled_from(['x', 'y']))
     case['forces'] = [{'x': 0.5, 'y': 0.5, 'fx': 0., 'fy': 0., 'fz': round(draw(gen.fl(1., 50.)), 2), 'cte': draw(st.booleans())}]
     case['uniform_form'] = draw(st.booleans())
+    case['forces_form'] = draw(st.sampled_from(['list', 'list', 'ndarray']))
     case['ops'] = draw(st.lists(_panel_op(case['model']), min_size=1, max_size=8 if tier == 'quick' else 12))
     return case
 
